@@ -164,3 +164,8 @@ func init() {
 	mutant("handlestate-before-handleframe", "frame-step-order", "serverConn.go", "			handleState(fr, strm)\n\n			// Hand the request to the handler", "			// Hand the request to the handler")
 	mutant("data-before-headers", "frame-step-order", "serverConn.go", "	fasthttpResponseHeaders(h, &sc.enc, &ctx.Response)\n\n	sc.write(fr)\n\n	if !hasBody {", "	fasthttpResponseHeaders(h, &sc.enc, &ctx.Response)\n\n	if !hasBody {\n		sc.write(fr)")
 }
+
+func init() {
+	mutant("enc-int-no-zero-continuation", "enc-int-boundary", "hpack.go", "	for ; index >= 128; index >>= 7 {\n		dst = append(dst, 128|byte(index&127))\n	}\n\n	return append(dst, byte(index))", "	for ; index >= 128; index >>= 7 {\n		dst = append(dst, 128|byte(index&127))\n	}\n\n	if index != 0 {\n		dst = append(dst, byte(index))\n	}\n\n	return dst")
+	mutant("dec-int-cursor-off", "dec-int-overflow", "hpack.go", "			return b[i+1:], nn + uint64(b0), nil", "			return b[i:], nn + uint64(b0), nil")
+}
